@@ -782,6 +782,9 @@ class ClientSession:
                         ):
                             method = hdrs.METH_GET
                             data = None
+                            # The body is gone, and so is its framing: a chunked
+                            # request would otherwise still emit the terminator.
+                            chunked = None
                             if headers.get(hdrs.CONTENT_LENGTH):
                                 headers.pop(hdrs.CONTENT_LENGTH)
                         else:
